@@ -403,7 +403,12 @@ def new_pair_guards(ctx, rule):
                     op = e[1]
                     if r == args[si_] and l[0] == "call":
                         l, r, op = r, l, U.FLIP[op]
-                    if l != args[si_] or not (r[0] == "call" and r[1].endswith("Word::len") and S.strip_refs(r[2][0]) == args[wi]):
+                    if l != args[si_]:
+                        continue
+                    # the bound may be a hoisted local captured by the closure: compare in terms of the creating body
+                    r_ = S.strip_refs(U.rooted(ctx, b, r))
+                    w_ = S.strip_refs(U.rooted(ctx, b, args[wi]))
+                    if not (r_[0] == "call" and r_[1].endswith("Word::len") and S.strip_sites(S.strip_refs(r_[2][0])) == S.strip_sites(w_)):
                         continue
                     to_true = U.branch_reaches(cfg, gbi, bt[1], {bi})
                     to_false = U.branch_reaches(cfg, gbi, bt[0], {bi})
